@@ -1,7 +1,7 @@
-\* thorough: F <= 10, B <= 3
+\* thorough: F <= 12, B <= 3
 SPECIFICATION Spec
 CONSTANTS
-  MaxF = 10
+  MaxF = 12
   MaxB = 3
   RotLeft = FALSE
   CovLeft = FALSE
